@@ -25,7 +25,7 @@ where
     }
     fn run_tapes(&self, tapes: &[Vec<u32>]) -> (Value, Outcome) {
         let case = self.gen(tapes);
-        let out = self.run(&case);
+        let out = self.run_contained(&case, "");
         (serde_json::to_value(&case).unwrap_or(Value::Null), out)
     }
 }
